@@ -51,7 +51,7 @@ ClientInit ==
   [pc |-> "idle", mid |-> "", wmid |-> "", sid |-> "", sgen |-> -1, claims |-> {},
    cst |-> [p \in Parts |-> "none"], nxt |-> [p \in Parts |-> 0], got |-> [p \in Parts |-> 0],
    mk |-> [p \in Parts |-> -1], dirty |-> {}, ctx |-> FALSE, pcancel |-> FALSE, closed |-> "no",
-   calls |-> 0, hb |-> "off", retries |-> 0, trig |-> 0, h |-> NoHandler, ftry |-> 0]
+   calls |-> 0, hb |-> "off", retries |-> 0, trig |-> 0, h |-> NoHandler, ftry |-> 0, ac |-> 0]
 
 ResetEvent(c) ==
   [ev |-> "reset", initial |-> c.initial, loglen |-> LogLen, logstart |-> 0, auto |-> c.auto,
@@ -136,7 +136,7 @@ ResolveM(init) == IF init >= 0 THEN init ELSE IF init = -2 THEN 0 ELSE LogLen
 NewSession(x, A, g) ==
   [x EXCEPT !.pc = "setup", !.sid = x.mid, !.claims = A, !.hb = "on", !.ctx = x.pcancel,
             !.cst = [p \in Parts |-> "none"], !.mk = [p \in Parts |-> IF p \in A THEN g.store[p] ELSE -1],
-            !.dirty = {}, !.got = [p \in Parts |-> 0], !.ftry = 0]
+            !.dirty = {}, !.got = [p \in Parts |-> 0], !.ftry = 0, !.ac = 0]
 
 -----------------------------------------------------------------------------
 (* Consume *)
@@ -337,13 +337,13 @@ CommitReq(c, k, final) ==
   /\ co' = IF ok THEN [g0 EXCEPT !.store = [p \in Parts |-> IF p \in x.dirty THEN x.mk[p] ELSE @[p]]] ELSE g0
   /\ cl' = [cl EXCEPT ![c].dirty = IF ok THEN {} ELSE @,
                       ![c].pc = IF ~final THEN @ ELSE IF ok \/ x.ftry >= 1 THEN "hbstop" ELSE "final",
-                      ![c].ftry = IF final THEN @ + 1 ELSE @]
+                      ![c].ftry = IF final THEN @ + 1 ELSE @, ![c].ac = IF final THEN @ ELSE @ + 1]
   /\ Emitting(<<[ev |-> "commit", c |-> c, mid |-> x.sid, gen |-> gen, err |-> v, blocks |-> blocks, applied |-> ok]>>)
   /\ script' = RecC(script, c, k)
 
 AutoCommit(c) ==
   LET x == cl[c] IN
-  /\ cfg.auto = "fast" /\ x.pc = "run" /\ x.dirty # {}
+  /\ cfg.auto = "fast" /\ x.pc = "run" /\ x.dirty # {} /\ x.ac < 2
   /\ \E k \in {"ok"} \cup (IF fb > 0 THEN CommitKinds ELSE {}) :
        /\ CommitReq(c, k, FALSE)
        /\ fb' = IF k = "ok" THEN fb ELSE fb - 1
@@ -468,7 +468,6 @@ CloseLeave(c) ==
   /\ UNCHANGED <<cfg, tb>>
 
 AllDone == \A c \in Clients : cl[c].pc = "done"
-Finished == AllDone /\ UNCHANGED vars
 
 Next ==
   \/ \E c \in Clients :
@@ -478,7 +477,6 @@ Next ==
        \/ TrigCancel(c) \/ TrigClose(c) \/ TrigHb(c) \/ CloseNormal(c) \/ CloseLeave(c)
        \/ \E p \in Parts : ClaimBegin(c, p) \/ Deliver(c, p) \/ ClaimReturn(c, p)
   \/ JoinComplete
-  \/ Finished
 Spec == Init /\ [][Next]_vars
 
 -----------------------------------------------------------------------------
@@ -510,6 +508,8 @@ Scenario ==
 Emitted == (Emit /\ AllDone) => PrintT(<<"CASE", ToJson(Scenario)>>)
 
 View == <<cfg, co, cl, fb, tb, obs>>
+\* generation only needs every distinct script once: the observer state is left out of the fingerprint
+GenView == <<cfg, [co EXCEPT !.hi = 0], cl, fb, tb, script>>
 
 (* constant values that a .cfg file cannot spell *)
 H(m, n, k) == [mode |-> m, n |-> n, mark |-> k]
@@ -520,6 +520,7 @@ HandlersEarly == {H("early", 1, 1)}
 HandlersTwo == {H("drain", 1, 2), H("early", 1, 1)}
 HandlersResume == {H("early", 1, 0), H("early", 1, 1), H("early", 2, 1), H("early", 2, 2)}
 CC1r == {<<-1>>, <<1>>}
+MC1 == [c \in Clients |-> 1]
 MC2 == [c \in Clients |-> 2]
 MC21 == [c \in Clients |-> IF c = "c1" THEN 2 ELSE 1]
 MC3 == [c \in Clients |-> 3]
